@@ -636,6 +636,70 @@ func isTLSCarrierCall(c *ssa.Call) string {
 	return ""
 }
 
+// schemeGuardHolds: on this path a test "scheme has +tls" or scheme == https/wss is known true.
+func schemeGuardHolds(st *pathState, hasTls types.Object) bool {
+	for v, tv := range st.Facts {
+		if !tv {
+			continue
+		}
+		if isHasTlsMatch(v, hasTls) {
+			return true
+		}
+		if b, ok := v.(*ssa.BinOp); ok && b.Op == token.EQL {
+			for _, op := range []ssa.Value{b.X, b.Y} {
+				if c, ok := op.(*ssa.Const); ok && c.Value != nil && c.Value.Kind() == constant.String {
+					s := constant.StringVal(c.Value)
+					if s == "https" || s == "wss" {
+						return true
+					}
+				}
+			}
+		}
+	}
+	return false
+}
+
+func isHasTlsMatch(v ssa.Value, hasTls types.Object) bool {
+	if c, ok := v.(*ssa.Call); ok && isMethod(sCallee(c), "regexp", "Regexp", "MatchString") && len(c.Call.Args) > 0 {
+		if u, ok := c.Call.Args[0].(*ssa.UnOp); ok {
+			if g, ok := u.X.(*ssa.Global); ok && g.Object() == hasTls {
+				return true
+			}
+		}
+	}
+	return false
+}
+
+// helperTrueOnlyUnderSchemeTest: every return of the helper whose idx-th result can be true lies on a
+// path where a +tls / https / wss scheme test holds (or the result IS such a test).
+func helperTrueOnlyUnderSchemeTest(fn *ssa.Function, idx int, hasTls types.Object) bool {
+	if len(fn.Blocks) == 0 {
+		return false
+	}
+	okAll, nret := true, 0
+	done := enumPaths(fn, nil, nil, nil, func(e pathExit) {
+		ret, isRet := e.Last.(*ssa.Return)
+		if !isRet || idx >= len(ret.Results) {
+			return
+		}
+		nret++
+		v := e.State.Resolve(ret.Results[idx])
+		if b, isC := constBool(v); isC && !b {
+			return
+		}
+		if t, known := e.State.Truth(v); known && !t {
+			return
+		}
+		if isHasTlsMatch(v, hasTls) {
+			return
+		}
+		if !schemeGuardHolds(e.State, hasTls) {
+			okAll = false
+		}
+	})
+	return done && okAll && nret > 0
+}
+
 func c04Correlation(w *World, r *Report, sites []connectSite) {
 	hasTls := w.Pkg("internal/util/addr").Types.Scope().Lookup("HasTls")
 	// --- client side: secure argument of NewClientConnection
@@ -685,27 +749,18 @@ func c04Correlation(w *World, r *Report, sites []connectSite) {
 				return
 			}
 			// websocket idiom: secure is true only under scheme tests
-			guard := false
-			for v, tv := range e.State.Facts {
-				if !tv {
-					continue
-				}
-				if c, ok := v.(*ssa.Call); ok && isMethod(sCallee(c), "regexp", "Regexp", "MatchString") && len(c.Call.Args) > 0 {
-					if u, ok := c.Call.Args[0].(*ssa.UnOp); ok {
-						if g, ok := u.X.(*ssa.Global); ok && g.Object() == hasTls {
-							guard = true
-						}
+			guard := schemeGuardHolds(e.State, hasTls)
+			// ... or it is the result of a pure helper that returns true only under such a test
+			if ex, ok := e.State.Resolve(secArg).(*ssa.Extract); ok && !guard {
+				if call, ok := ex.Tuple.(*ssa.Call); ok {
+					if callee := call.Call.StaticCallee(); callee != nil && inModule(callee) && helperTrueOnlyUnderSchemeTest(callee, ex.Index, hasTls) {
+						guard = true
 					}
 				}
-				if b, ok := v.(*ssa.BinOp); ok && b.Op == token.EQL {
-					for _, op := range []ssa.Value{b.X, b.Y} {
-						if c, ok := op.(*ssa.Const); ok && c.Value != nil && c.Value.Kind() == constant.String {
-							s := constant.StringVal(c.Value)
-							if s == "https" || s == "wss" {
-								guard = true
-							}
-						}
-					}
+			}
+			if call, ok := e.State.Resolve(secArg).(*ssa.Call); ok && !guard {
+				if callee := call.Call.StaticCallee(); callee != nil && inModule(callee) && helperTrueOnlyUnderSchemeTest(callee, 0, hasTls) {
+					guard = true
 				}
 			}
 			if !guard {
@@ -838,8 +893,8 @@ func c04ServerFlag(w *World, r *Report, key, pos string, flag *types.Var) {
 			if st, ok := in.(*ssa.Store); ok {
 				if fa, ok := st.Addr.(*ssa.FieldAddr); ok && fieldVarOf(fa) == flag {
 					name := ssaFuncKey(fn)
-					if o, ok := fn.Object().(*types.Func); !ok || o.Name() != "Startup" {
-						bad = fmt.Sprintf("%s: the secure flag is written outside Startup (%s)", w.Pos(st.Pos()), name)
+					if !onlyCalledFromNamed(w, fn, "Startup", 0) {
+						bad = fmt.Sprintf("%s: the secure flag is written outside Startup and its helpers (%s)", w.Pos(st.Pos()), name)
 					}
 					writers = append(writers, name)
 				}
